@@ -2538,6 +2538,9 @@ enum SModeSpec {
     Art(f64, f64, Option<CharItems>),
     Real(Missp),
     Mixed(f64, f64, f64, Option<CharItems>, Missp),
+    /// the misspellings file given as its BYTES (written verbatim; the model parses them: Pipeline_Stages.missp_of_bytes)
+    RealBytes(Vec<u8>),
+    MixedBytes(f64, f64, f64, Option<CharItems>, Vec<u8>),
 }
 
 #[derive(Clone, Debug, PartialEq)]
@@ -2599,6 +2602,57 @@ fn val_missp(v: &Val) -> Option<Missp> {
     }
     Some(miss)
 }
+fn val_bytes(v: &Val) -> Option<Vec<u8>> {
+    let b: Vec<u8> = v.as_l()?.iter().map(|x| x.as_i().and_then(|i| u8::try_from(i).ok())).collect::<Option<_>>()?;
+    if b.len() > 4000 {
+        return None;
+    }
+    Some(b)
+}
+
+/// the bytes of a misspellings file holding `ms`, in several writers' styles; `safe` = one that parses and has no empty list
+fn missp_bytes(rng: &mut Rng, ms: &Missp, safe: bool) -> Vec<u8> {
+    let q = |rng: &mut Rng, s: &str| -> String {
+        if rng.chance(1, 4) {
+            py_string(s)
+        } else {
+            serde_json::to_string(s).unwrap()
+        }
+    };
+    let mut members: Vec<String> = vec![];
+    for (w, rs) in ms {
+        let list: Vec<String> = rs.iter().map(|r| q(rng, r)).collect();
+        // a key given twice: the LAST list counts (HashMap::insert)
+        if rng.chance(1, 6) {
+            members.push(format!("{}: [\"first\", \"zz\"]", q(rng, w)));
+        }
+        let sep = if rng.chance(1, 3) { " ,\n " } else { "," };
+        members.push(format!("{}{}[{}]", q(rng, w), if rng.chance(1, 2) { ": " } else { ":" }, list.join(sep)));
+    }
+    let body = match rng.below(4) {
+        0 => format!("{{{}}}", members.join(",")),
+        1 => format!("{{\n  {}\n}}\n", members.join(",\n  ")),
+        2 => format!(" \t{{ {} }} ", members.join(" , ")),
+        _ => format!("{{{}}}", members.join(", ")),
+    };
+    if safe || !rng.chance(1, 6) {
+        return body.into_bytes();
+    }
+    // files the constructor refuses (`expect`: the call of `preprocessing(cfg)` panics)
+    match rng.below(10) {
+        0 => b"".to_vec(),
+        1 => format!("{} x", body).into_bytes(),
+        2 => b"{\"ab\": \"xy\"}".to_vec(),
+        3 => b"{\"ab\": [1]}".to_vec(),
+        4 => b"{\"ab\": [\"x\",]}".to_vec(),
+        5 => b"[[\"ab\", [\"x\"]]]".to_vec(),
+        6 => b"{\"ab\": [\"x\xff\"]}".to_vec(),
+        7 => b"{\"ab\": [\"\\ud800\"]}".to_vec(),
+        8 => b"{\"ab\": null}".to_vec(),
+        _ => b"\xef\xbb\xbf{}".to_vec(),
+    }
+}
+
 fn val_temp(v: &Val) -> Option<f64> {
     let t = val_f64(v)?;
     if t > 0.01 && t < 100.0 {
@@ -2618,6 +2672,10 @@ impl StageSpec {
                     SModeSpec::Real(ms) => Val::L(vec![Val::I(1), missp_val(ms)]),
                     SModeSpec::Mixed(art, pc, temp, chars, ms) => {
                         Val::L(vec![Val::I(2), f64_val(*art), f64_val(*pc), f64_val(*temp), chars_val(chars, *temp), missp_val(ms)])
+                    }
+                    SModeSpec::RealBytes(b) => Val::L(vec![Val::I(3), Val::bytes(b)]),
+                    SModeSpec::MixedBytes(art, pc, temp, chars, b) => {
+                        Val::L(vec![Val::I(4), f64_val(*art), f64_val(*pc), f64_val(*temp), chars_val(chars, *temp), Val::bytes(b)])
                     }
                 };
                 Val::L(vec![Val::I(1), Val::b(*p), f64_val(*prob), Val::b(*fd), mv])
@@ -2650,6 +2708,8 @@ impl StageSpec {
                     (0, 4) => SModeSpec::Art(val_f64(&m[1])?, val_temp(&m[2])?, val_chars(&m[3])?),
                     (1, 2) => SModeSpec::Real(val_missp(&m[1])?),
                     (2, 6) => SModeSpec::Mixed(val_f64(&m[1])?, val_f64(&m[2])?, val_temp(&m[3])?, val_chars(&m[4])?, val_missp(&m[5])?),
+                    (3, 2) => SModeSpec::RealBytes(val_bytes(&m[1])?),
+                    (4, 6) => SModeSpec::MixedBytes(val_f64(&m[1])?, val_f64(&m[2])?, val_temp(&m[3])?, val_chars(&m[4])?, val_bytes(&m[5])?),
                     _ => return None,
                 };
                 // the weights on the wire must be what this machine's powf gives (they are data for the model)
@@ -2701,6 +2761,11 @@ impl StageSpec {
                     std::fs::write(&path, serde_json::Value::Object(map).to_string()).ok()?;
                     Some(path)
                 };
+                let write_bytes = |b: &Vec<u8>| -> Option<std::path::PathBuf> {
+                    let path = dir.join(format!("st{k}-missp.json"));
+                    std::fs::write(&path, b).ok()?;
+                    Some(path)
+                };
                 let mode = match m {
                     SModeSpec::Art(pc, temp, chars) => {
                         let cp = match chars {
@@ -2716,6 +2781,14 @@ impl StageSpec {
                             None => None,
                         };
                         SpellingCorruptionMode::Mixed(*art, *pc, *temp, cp, write_missp(ms)?)
+                    }
+                    SModeSpec::RealBytes(b) => SpellingCorruptionMode::Realistic(write_bytes(b)?),
+                    SModeSpec::MixedBytes(art, pc, temp, chars, b) => {
+                        let cp = match chars {
+                            Some(items) => Some(write_chars(items)?),
+                            None => None,
+                        };
+                        SpellingCorruptionMode::Mixed(*art, *pc, *temp, cp, write_bytes(b)?)
                     }
                 };
                 P::SpellingCorruption(part_of(*p), *prob, *fd, mode)
@@ -2740,6 +2813,8 @@ impl StageSpec {
             StageSpec::Spell(_, _, _, SModeSpec::Real(..)) => "x-spell-real".into(),
             StageSpec::Spell(_, _, _, SModeSpec::Mixed(_, _, _, None, _)) => "x-spell-mixed".into(),
             StageSpec::Spell(_, _, _, SModeSpec::Mixed(..)) => "x-spell-mixed-dict".into(),
+            StageSpec::Spell(_, _, _, SModeSpec::RealBytes(..)) => "x-spell-real-bytes".into(),
+            StageSpec::Spell(_, _, _, SModeSpec::MixedBytes(..)) => "x-spell-mixed-bytes".into(),
             StageSpec::Chat(..) => "x-chat".into(),
         }
     }
@@ -3098,6 +3173,16 @@ fn gen_spell_stage(rng: &mut Rng, target: bool, text: &str, safe: bool) -> Stage
         }
         8 => SModeSpec::Art(pc, temp, None),
         _ => SModeSpec::Mixed(art, pc, temp, None, gen_missp(rng, &words, safe)),
+    };
+    // half of the misspellings files travel as their bytes
+    let mode = if rng.chance(1, 2) {
+        match mode {
+            SModeSpec::Real(ms) => SModeSpec::RealBytes(missp_bytes(rng, &ms, safe)),
+            SModeSpec::Mixed(a, pc, t, c, ms) => SModeSpec::MixedBytes(a, pc, t, c, missp_bytes(rng, &ms, safe)),
+            m => m,
+        }
+    } else {
+        mode
     };
     let prob = if !safe && rng.chance(1, 40) { 0.0 } else if rng.chance(1, 30) { 1.5 } else { gen_spell_prob(rng) };
     StageSpec::Spell(target, prob, rng.chance(1, 2), mode)
